@@ -176,12 +176,23 @@ def _embed(rng, h):
     return u
 
 
+def _undefined(labels):
+    """the hosts the class documents as undefined behaviour (ASSUMPTIONS): a bare `localhost`
+    or an IPv4 literal; the random generator must not produce them (an ancestor/sibling step
+    over a one-label host used to: `localhost`, found by the thorough tier with seed 0)"""
+    if len(labels) == 1 and labels[0].lower() == "localhost":
+        return True
+    return len(labels) == 4 and all(l.isdigit() for l in labels)
+
+
 def random_case(rng):
     n = rng.randint(5, 40)
     pool = []
     adds = []
     for _ in range(n):
         labels = _rand_host_labels(rng, pool)
+        while _undefined(labels):
+            labels = _rand_host_labels(rng, pool)
         pool.append(labels)
         adds.append(_spell(rng, labels))
     qs = []
@@ -191,7 +202,7 @@ def random_case(rng):
             cands.append(labels[:-1])
             cands.append(labels[1:])
         for c in rng.sample(cands, min(len(cands), 3)):
-            if c:
+            if c and not _undefined(c):
                 qs.append(_embed(rng, _spell(rng, c, pad=False)))
     qs.extend(["", "/just/a/path", "http:///x", "?q=1"])
     return {"adds": adds, "q": qs}
